@@ -1670,3 +1670,9 @@ TABLE["C12"] += [
     B("operator-symbol-as-a-character-run", {"L2"}, (TK, "OPERATOR = Or(\n    map(\n        Literal,\n        [", "OPERATOR = Word(\"+-*/%^&|<>=!~\") ^ Or(\n    map(\n        Literal,\n        [")),
     N("identifier-run-with-explicit-body", (TK, "IDENT = Word(alphas + '_', alphanums + '_')", "IDENT = Word(alphas + '_', bodyChars=alphanums + '_')")),
 ]
+XMLP = "gtwrap/xml_parser/xml_parser.py"
+TABLE["C17"] += [
+    B("index-lookup-restricted-to-kind-class", {"Q5"}, (XMLP, """index_root.find(f"./*[name='{cpp_class}']")""", """index_root.find(f"./compound[@kind='class'][name='{cpp_class}']")""")),
+    B("index-lookup-takes-the-first-compound", {"Q5"}, (XMLP, """index_root.find(f"./*[name='{cpp_class}']")""", """index_root.find(f"./*[1][name='{cpp_class}']")""")),
+    N("index-lookup-names-the-compound-tag", (XMLP, """index_root.find(f"./*[name='{cpp_class}']")""", """index_root.find(f"./compound[name='{cpp_class}']")""")),
+]
